@@ -624,7 +624,9 @@ def run(ctx):
                "READY in answer to AUTH_RESPONSE may be accepted or refused; a forced compression algorithm that is not available on both sides may "
                "fail the connection or go on uncompressed")
     rng = ctx.rng
-    budget = 44 if ctx.quick else 400
+    budget = 42 if ctx.quick else 400
+    import time
+    t_run0 = time.time()          # the budget counts from here (imports done); at most 25 s of start-up slack on a loaded machine
     base = ctx.seed * 1000003 + (ctx.worker or 0) * 100003
     n_batches = ctx.scale(400, 60000)
     batch_size = 40
@@ -633,7 +635,7 @@ def run(ctx):
     ctx.note("worker %s enumerates %d of %d short scripts" % (ctx.worker, len(enum), len(allc)))
     b = 0
     while b < n_batches:
-        if ctx.time_left(budget) < 0:
+        if min(budget - (time.time() - t_run0), ctx.time_left(budget + 25)) < 0 and b >= 10:
             ctx.note("stopped by the time budget after %d batches (%d enumerated scripts left)" % (b, len(enum)))
             break
         if enum:
